@@ -241,14 +241,84 @@ pub fn c09() -> SchedCampaign {
     }
 }
 
+fn dep_heavy() -> SchedCampaign {
+    SchedCampaign {
+        prop: "C16",
+        families: vec![
+            Family {
+                weight: 5,
+                params: GenParams {
+                    family: "chains-and-fan-in",
+                    txs: (4, 24),
+                    n_eoa: 4,
+                    n_con: 1,
+                    mix: Mix { sload: 14, sstore: 14, call: 2, slots: 2, len: (4, 10), ..Mix::default() },
+                    kind_w: [14, 2, 0, 0],
+                    hot_sender_pct: 60,
+                    ..GenParams::default()
+                },
+            },
+            Family {
+                weight: 4,
+                params: GenParams {
+                    family: "errors-parked",
+                    specs: ALL_SPECS,
+                    txs: (4, 20),
+                    n_eoa: 4,
+                    n_con: 2,
+                    mix: Mix { sload: 10, sstore: 10, call: 5, slots: 3, ..Mix::default() },
+                    invalid_pct: 25,
+                    poor_senders: 2,
+                    hot_sender_pct: 50,
+                    nonce_check_off_pct: 30,
+                    ..GenParams::default()
+                },
+            },
+        ],
+        profiles: ProfileWeights {
+            quiet: 1,
+            light: 2,
+            chaos: 3,
+            focus: 8,
+            director: 6,
+            focus_classes: &[Class::Dep, Class::Commit, Class::ExecStart, Class::Abort],
+            directors: obs::D_COORD | obs::D_COMMIT_HEAD | obs::D_FINISH_AT_HEAD,
+        },
+        seq_pct: 0,
+    }
+}
+
+fn coord_heavy(prop: &'static str) -> SchedCampaign {
+    let mut c = dep_heavy();
+    c.prop = prop;
+    c.profiles = ProfileWeights {
+        quiet: 1,
+        light: 2,
+        chaos: 3,
+        focus: 8,
+        director: 8,
+        focus_classes: &[Class::Wait, Class::Finality, Class::Commit, Class::Abort, Class::EstimateRewind],
+        directors: obs::D_COORD | obs::D_WAIT | obs::D_AFTER_NOTIFY,
+    };
+    c
+}
+
 pub fn by_name(prop: &str) -> Option<Box<dyn crate::campaign::Campaign>> {
+    use crate::campaign::Composite;
+    use crate::components as comp;
     match prop {
+        "C15" => Some(Box::new(Composite {
+            prop: "C15",
+            parts: vec![(8, Box::new(comp::C15)), (2, Box::new(SchedCampaign { prop: "C15", ..c02() }))],
+        })),
+        "C16" => Some(Box::new(Composite { prop: "C16", parts: vec![(6, Box::new(comp::C16)), (4, Box::new(dep_heavy()))] })),
+        "C17" => Some(Box::new(Composite { prop: "C17", parts: vec![(5, Box::new(comp::C17)), (5, Box::new(coord_heavy("C17")))] })),
+        "C07" => Some(Box::new(Composite { prop: "C07", parts: vec![(8, Box::new(c07())), (2, Box::new(comp::C07History))] })),
         "C01" => Some(Box::new(c01())),
         "C02" => Some(Box::new(c02())),
         "C03" => Some(Box::new(c03())),
         "C04" => Some(Box::new(crate::faults::C04)),
         "C05" => Some(Box::new(crate::faults::C05)),
-        "C07" => Some(Box::new(c07())),
         "C08" => Some(Box::new(c08())),
         "C09" => Some(Box::new(c09())),
         _ => None,
